@@ -235,6 +235,33 @@ def two_jointypes_shape(case, st, rng, prof, gl):
     return {"tables": case["tables"], "recipe": node, "final_order": None}
 
 
+def multiline_literal_shape(case, rng):
+    """a string constant with a line break in an interior step (layout options re-indent the generated text, the text of a
+    literal is data): a small table of notes, some of them spanning two or three lines with leading blanks, a row filter
+    (or a computed flag) on one of them, and one or two more steps so that the filter is not the last step"""
+    vals = ["line one\nline two", "line one\n line two", "line one\n  line two", "plain", "a\n\tb", "x\n\n y", "line one"]
+    n = rng.randint(3, 7)
+    rows = [[i, rng.choice(vals), rng.choice([1.0, 2.5, -3.0, 10.0]), rng.choice(["g1", "g2"])] for i in range(n)]
+    lit = rng.choice([r[1] for r in rows if "\n" in r[1]] or [vals[0]])
+    table = {"name": "t0", "cols": [["uid", "i"], ["note", "s"], ["x", "f"], ["g", "s"]], "rows": rows}
+    node = {"op": "table", "name": "t0", "cols": ["uid", "note", "x", "g"]}
+    if rng.random() < 0.6:
+        node = {"op": "select_rows", "expr": ["bin", "==", ["col", "note"], ["lit", lit]], "src": node}
+    else:
+        node = {"op": "extend", "ops": [["is_it", ["bin", "==", ["col", "note"], ["lit", lit]]],
+                                         ["tag", ["m", "if_else", ["bin", "==", ["col", "note"], ["lit", lit]], [["lit", lit], ["lit", "other"]]]]],
+                "src": node}
+    for _ in range(rng.randint(1, 2)):
+        k = rng.choice(["extend", "project", "order"])
+        if k == "extend":
+            node = {"op": "extend", "ops": [["y%d" % rng.randint(0, 9), ["bin", "+", ["col", "x"], ["lit", 1]]]], "src": node}
+        elif k == "project" and node["op"] != "project":
+            node = {"op": "project", "ops": [["sx", ["m", "sum", ["col", "x"], []]]], "group_by": ["g"], "src": node}
+        else:
+            node = {"op": "order_rows", "cols": ["g"] if node["op"] == "project" else ["uid"], "reverse": [], "limit": None, "src": node}
+    return {"tables": [table], "recipe": node, "final_order": None}
+
+
 def run_batch(seed, batch, tier):
     import data_algebra.SQLite
     import data_algebra.PostgreSQL
@@ -286,6 +313,11 @@ def run_batch(seed, batch, tier):
                     if tj is not None:
                         case = tj
                         b.count("two_jointype_shapes")
+                if b.rng.random() < 0.15:
+                    ml = multiline_literal_shape(case, b.rng)
+                    if ml is not None:
+                        case = ml
+                        b.count("multiline_literal_shapes")
                 ops = B.build(case["recipe"])
                 ops_copy = B.build(case["recipe"])
                 frames = diff.used_frames(case)
